@@ -38,14 +38,16 @@ LEVEL_NOTE = ("Trusted: the generic census/restore (asserted equal to pristine a
               "subprocess baselines. Bounds: pool of 15 documents, events {new, enc}, depth as in evidence.")
 
 EVENTS = [(e, n) for n in HP.POOL_NAMES for e in ("new", "enc")]
-EVENTS2 = [(e, n) for n in HP.POOL2_NAMES for e in ("new", "enc")]  # second sharing group: histories stay within one group
+EVENT_GROUPS = [[(e, n) for n in names for e in ("new", "enc")] for names in HP.GROUPS]  # histories stay within one sharing group
+EVENTS2 = EVENT_GROUPS[1]
 
 
 def events_for(hist):
-    """The alphabet that extends `hist`: the group of its first event (both groups for the empty history)."""
+    """The alphabet that extends `hist`: the group of its first event (all groups for the empty history)."""
     if not hist:
-        return EVENTS + EVENTS2
-    return EVENTS2 if hist[0][1] in HP.POOL2_NAMES else EVENTS
+        return [e for g in EVENT_GROUPS for e in g]
+    return next(g for g, names in zip(EVENT_GROUPS, HP.GROUPS) if hist[0][1] in names)
+
 
 _SNAP = None
 _BASE = None
@@ -260,7 +262,7 @@ def plan(run):
     from concurrent.futures import ThreadPoolExecutor
 
     quick = run.tier == "quick"
-    run.rule = ("events {new(d), enc(d)} over a pool of 15 documents; all histories of length <= k unmerged (every encode in every history compared with the "
+    run.rule = ("events {new(d), enc(d)} over three pools (15 documents; a sharing group of 9 around a grid-bordered body, a footnote and a last-section body; a sharing group of 5 around a table footnote that a figure document must refuse and a coloured title); histories stay within one pool; all histories of length <= k unmerged (every encode in every history compared with the "
                 "fresh-interpreter baseline); breadth-first search over canonical states (census + component values + DataFrame fingerprints) with de-duplication; "
                 "representative histories re-executed in fresh interpreters. 'encode twice' is the history enc(d).enc(d). "
                 "non-trivial = distinct histories with >= 2 events; evaluations = histories executed")
@@ -289,7 +291,7 @@ def plan(run):
     # 1. unmerged: all histories up to depth k
     k = 3 if quick else 4
     cases = []
-    for evs, kk in ((EVENTS, k), (EVENTS2, k)):
+    for evs, kk in ((EVENT_GROUPS[0], k), (EVENT_GROUPS[1], k), (EVENT_GROUPS[2], k + 1)):
         for e1 in evs:
             for e2 in evs:
                 cases.append({"mode": "unmerged", "prefix": [list(e1), list(e2)], "depth": kk - 2})
